@@ -11,5 +11,8 @@ def wgDoneAfterClose : Bool := true
 def settersLocked : List (String × Bool) := [("Fulfill", true), ("Fail", true), ("Recover", true), ("Break", true)]
 def waitTakesUnderMutex : Bool := true
 def waitSleepsOnCond : Bool := true
+def failCond : String := "!set"
+def recoverTakesMessage : String := "when-recoverable"
+def putsThenBroadcast : List (String × Nat × Nat) := [("fulfill", 1, 1), ("fail", 1, 1)]
 
 end Biogo.Generated.Concurrent
